@@ -2,11 +2,14 @@ package sim
 
 import (
 	"bytes"
+	"errors"
 	"fmt"
 	"regexp"
 	"strconv"
 	"strings"
 	"testing"
+
+	"github.com/wkhere/bcl"
 
 	"verifharness/bcfmt"
 	"verifharness/gen"
@@ -40,7 +43,17 @@ func (c19) Gen(seed uint64, idx int, tier string) *Scenario {
 		cfg.LongSizes = []int{63, 64, 65, 94, 97, 240, 241, 300, 1000, 4097}
 	}
 	p := gen.Generate(r, cfg)
-	if class == "valid" && r.Chance(1, 5) {
+	if class == "valid" && (r.Chance(1, 300) || (tier == "thorough" && r.Chance(1, 60))) {
+		// a run of more than 65536 instructions: counters and offsets beyond 16 bits
+		var sb strings.Builder
+		n := r.Range(32800, 34000)
+		for i := 0; i < n; i++ {
+			sb.WriteString("eval 1\n")
+		}
+		sb.WriteString("print 7\n")
+		p = &gen.Prog{Src: []byte(sb.String())}
+		sc.Class = "long-run"
+	} else if class == "valid" && r.Chance(1, 5) {
 		// many locals: slot numbers and POPN counts that need multi-byte operands
 		p = manyLocals(r, cfg)
 	}
@@ -76,6 +89,11 @@ func (c19) Gen(seed uint64, idx int, tier string) *Scenario {
 		sc.GateLog = r.Chance(1, 2)
 		sc.GateOut = r.Chance(1, 3)
 		sc.Bias = prng.Pick(r, Biases)
+	}
+	if sc.Class == "long-run" {
+		// hundreds of KiB: real pages, no gates (the point of this class is the length of the run)
+		sc.Reads = nil
+		sc.GateRead, sc.GateClose, sc.GateLog = false, false, false
 	}
 	if len(sc.Src) > 1500 {
 		// the trace prints the whole stack before every instruction, one write per value:
@@ -137,6 +155,21 @@ func programLines(out string) (prog []string, instr [][]string, stacks int, stat
 		}
 	}
 	return
+}
+
+// failWriter accepts limit bytes and then fails every write.
+type failWriter struct {
+	limit, n int
+}
+
+func (w *failWriter) Write(p []byte) (int, error) {
+	if w.n+len(p) > w.limit {
+		k := max(0, w.limit-w.n)
+		w.n += k
+		return k, errors.New("simio: output device full")
+	}
+	w.n += len(p)
+	return len(p), nil
 }
 
 type optRun struct {
@@ -319,6 +352,44 @@ func (c19) Run(t *testing.T, sc *Scenario) *Outcome {
 		} else if len(instr) > 0 || stacks > 0 {
 			o.viol("C19", "trace", "trace lines although OptTrace is off", "with "+name, withOpt(opt))
 		}
+	}
+	if len(o.Violations) > 0 {
+		return o
+	}
+	// ---- a failing output writer (full disk, closed pipe): what goes wrong with the observers'
+	// extra text must not change the result either
+	if len(sc.Src) < 20000 {
+		limit := int(hash64(string(sc.Src)) % 97)
+		var ref string
+		for opt := 0; opt < 8; opt++ {
+			fw, fw2 := &failWriter{limit: limit}, &failWriter{limit: limit / 2}
+			var log bytes.Buffer
+			var res string
+			func() {
+				defer func() {
+					if x := recover(); x != nil {
+						res = "panic: " + panicSig(x)
+					}
+				}()
+				prog, err := bcl.Parse(sc.Src, sc.Name, bcl.OptOutput(fw), bcl.OptLogger(&log), bcl.OptDisasm(opt&OptDisasm != 0), bcl.OptStats(opt&OptStats != 0))
+				if err != nil {
+					res = "parse error: " + err.Error()
+					return
+				}
+				bs, bd, err := bcl.Execute(prog, bcl.OptOutput(fw2), bcl.OptLogger(&log), bcl.OptTrace(opt&OptTrace != 0), bcl.OptStats(opt&OptStats != 0))
+				res = "blocks: " + RenderBlocks(bs) + " binding: " + RenderBinding(bd) + " error: " + errText(err)
+			}()
+			res += " log: " + log.String()
+			o.Evals++
+			if opt == 0 {
+				ref = res
+			} else if res != ref {
+				o.viol("C19", "result-changed", "with a failing output writer the options change the result",
+					fmt.Sprintf("output writer failing after %d bytes, %s: %q vs %q without options", limit, optName(opt), short(res, 300), short(ref, 300)), withOpt(opt))
+				break
+			}
+		}
+		o.fault("output_write_error", 1)
 	}
 	if len(o.Violations) > 0 {
 		return o
